@@ -521,7 +521,7 @@ fn check(ch: &mut Choices, cx: &mut Ctx) -> R {
 /// The base-address rules with a *symbolic* unit base: the unit's DW_AT_low_pc and every list address are
 /// `Address::Symbol`, the sections are written through a relocation-recording writer and the relocations applied.
 /// A symbolic low_pc is a base address like any other: offset pairs need it, address pairs conflict with it (pre-v5).
-fn check_symbolic(ch: &mut Choices, cx: &mut Ctx) -> R {
+pub fn check_symbolic(ch: &mut Choices, cx: &mut Ctx, tag: &str) -> R {
     cx.label("symbolic unit base");
     let big = ch.bool();
     let version = ch.pick(&[4u16, 3, 2, 5, 4]);
@@ -607,7 +607,7 @@ fn check_symbolic(ch: &mut Choices, cx: &mut Ctx) -> R {
     if low_pc.is_some() && version < 5 {
         cx.nt();
     }
-    with_symbolic_write(|| check_written(&m, &expect, cx, "c16/symbolic"))
+    with_symbolic_write(|| check_written(&m, &expect, cx, tag))
 }
 
 fn ensure_dummy() -> R {
@@ -653,7 +653,7 @@ impl Prop for C16 {
     }
     fn run_case(&self, ch: &mut Choices, cx: &mut Ctx) -> R {
         if ch.chance(24) {
-            return check_symbolic(ch, cx);
+            return check_symbolic(ch, cx, "c16/symbolic");
         }
         check(ch, cx)
     }
